@@ -7,7 +7,7 @@ LEVEL = 'other'
 EXPLANATION = ('LANG rules over the inlined MIR event graph of every source and every Observer impl: '
                'S1 each basic source delivers exactly its documented notification shape (of = next complete, never = nothing, ...); '
                'S2 error() forwards the error as the only downstream event (no item, aggregate or completion with it) and never swallows it; '
-               'S3 complete() delivers next* then exactly one complete; S5 is_finished answers true only for an empty slot or a finished downstream (otherwise a hot source skips the operator at its terminal); S6 the take_last/skip_last queues are first-in-first-out; S4 next() never sends an error and completes downstream only in the '
+               'S3 complete() delivers next* then exactly one complete; S5 is_finished answers true only for an empty slot or a finished downstream (otherwise a hot source skips the operator at its terminal); S6 the take_last/skip_last queues are first-in-first-out; S7 the take_last queue never holds more than `count` items after next(), for every count >= 0 (interval abstract interpretation of len - count); S4 next() never sends an error and completes downstream only in the '
                'tabled early terminators. Decides the termination shape on every path; does not decide which items, their order or counts.')
 ASSUMPTIONS = ['value-level results of user closures, counters and predicates are not decided']
 TECHNIQUE = 'static analysis: regular-language inclusion of downstream event words over MIR event graphs (custom rustc_private driver)'
@@ -95,11 +95,12 @@ CONTROLS = [
     'S4|<verif_controls::CompleteInNext<O> as Observer>::next',
     'S5|<verif_controls::ConstFinishedObserver<O> as Observer>::is_finished',
     'S6|src/verif_controls.rs field `stack`',
+    'S7|<verif_controls::RingLast<O, Item> as Observer>::next',
 ]
 
 
 def check(cx):
-    return s1(cx) + s234(cx) + s5(cx) + s6(cx)
+    return s1(cx) + s234(cx) + s5(cx) + s6(cx) + s7(cx)
 
 
 def _src_event(n):
@@ -210,4 +211,33 @@ def s6(cx):
     res = fifo_findings(cx, ID, 'S6', ('src/ops/take_last.rs', 'src/ops/skip_last.rs'))
     if not cx.control and len(res) < 2:
         res.append(Finding(ID, 'S6', 'floor', False, 'expected the take_last / skip_last queues, found %d' % len(res)))
+    return res
+
+
+# observers that keep at most `bound` items in a queue: tag -> (queue field, bound field)
+BOUNDED = {'ops::take_last::TakeLastObserver': ('queue', 'count')}
+
+
+def s7(cx):
+    """take_last keeps at most `count` items: abstract interpretation of len(queue) - count over next(),
+    for every count >= 0 (a pop on an empty queue removes nothing)"""
+    from ..bounded import check_bound
+    res = []
+    seen = set()
+    for im in cx.observer_impls():
+        tag = roles.impl_tag(cx, im)
+        spec = BOUNDED.get(tag)
+        if cx.control and tag == 'verif_controls::RingLast':
+            spec = ('queue', 'count')
+        if spec is None:
+            continue
+        seen.add(tag)
+        fn = cx.method(im, 'next')
+        g = cx.graph(fn['key'])
+        bad = check_bound(g, *spec)
+        res.append(Finding(ID, 'S7', cx.label(fn), not bad, bad[0] if bad else 'len(%s) <= %s re-established on every path of next(), for every bound >= 0' % spec, fn['span'], bad[1] if bad else None))
+    if not cx.control:
+        for t in BOUNDED:
+            if t not in seen:
+                res.append(Finding(ID, 'S7', 'table:' + t, False, 'bounded-queue observer not found (fail closed)'))
     return res
